@@ -185,6 +185,108 @@ def execute(root, case, decision, plain, payload=b"payload bytes", members=None)
             "tmpLeft": bool(tmp_rel and tmp_rel in after and (case["mode"] == "file" or tmp_rel not in before)), "asked": len(answers)}
 
 
+def execute_e2e(root, case, decision, plain, answer="y", fault=None):
+    """The same case through the whole command: the real `wormhole receive` (cmd_receive.receive(): mailbox, offer, prompt,
+    transit, its success *and failure* paths including whatever it cleans up afterwards) against the real `wormhole send`
+    whose offer carries the hostile name (the sender is untrusted: the harness rewrites the name its _build_offer() made).
+    answer: what the user types at the "ok? (y/N)" prompt when --accept-file is not given.
+    fault: None, or "cut" - the transit stream dies part way through the payload."""
+    from wormhole.cli import cmd_send
+    paths = build_sandbox(root, case, plain)
+    name = offered_name(case["base"], case["decor"], plain, root)
+    expected_dest = dest_path(paths, decision, plain)
+    sdir = os.path.join(os.path.dirname(root), "sender")
+    shutil.rmtree(sdir, ignore_errors=True)
+    os.makedirs(sdir)
+    payload = b"payload bytes " * 4000
+    if case["mode"] == "file":
+        with open(os.path.join(sdir, "thing"), "wb") as f:
+            f.write(payload)
+    else:
+        os.makedirs(os.path.join(sdir, "thing", "d"))
+        with open(os.path.join(sdir, "thing", "a.txt"), "wb") as f:
+            f.write(b"alpha")
+        with open(os.path.join(sdir, "thing", "d", "e.txt"), "wb") as f:
+            f.write(payload)
+    if case["pretmp"]:
+        sib = (expected_dest or paths["cand"] or os.path.join(paths["cwd"], "zzz")) + ".tmp"
+        if not os.path.lexists(sib) and os.path.isdir(os.path.dirname(sib)):
+            with open(sib, "w") as f:
+                f.write("someone else's temporary file")
+    before = X.snapshot(root)
+    orig_build = cmd_send.Sender._build_offer
+
+    def hostile_offer(self):
+        offer, fd = orig_build(self)
+        if "file" in offer:
+            offer["file"]["filename"] = name
+        elif "directory" in offer:
+            offer["directory"]["dirname"] = name
+        return offer, fd
+    answers = []
+    orig_input = builtins.input
+    builtins.input = lambda prompt="": answers.append(prompt) or answer
+    cmd_send.Sender._build_offer = hostile_offer
+    w = X.XferWorld(os.path.dirname(root))
+    internal = []
+    try:
+        w.start_send(sdir, what="thing")
+        w.start_receive(paths["cwd"], accept=bool(case["accept"]), output_file="OUT" if case["out"] != "unset" else None)
+        if fault == "cut":
+            w.fault = {"cut_at": 20000}
+        import contextlib
+        with contextlib.redirect_stdout(io.StringIO()):      # (the commands' own chatter)
+            w.run(until=w.done)
+        internal = [repr(e)[:100] for _, e in w.internal] + [repr(e)[:100] for e in w.logged]
+    except Exception as e:
+        internal.append("harness: %r" % (e,))
+    finally:
+        cmd_send.Sender._build_offer = orig_build
+        builtins.input = orig_input
+        w.shutdown()
+    res = w.results.get("recv", "pending")
+    from twisted.python.failure import Failure
+    from wormhole.errors import TransferError
+    if isinstance(res, Failure):
+        exc = res.value
+        outcome = "rejected" if isinstance(exc, TransferError) else "error"
+        if fault == "cut" and decision["result"] == "written" and (answer == "y" or case["accept"]):
+            outcome = "cut"
+    elif res == "pending":
+        outcome, exc = "pending", None
+    else:
+        outcome, exc = "written", None
+    after = X.snapshot(root)
+    changed = sorted(p for p in set(before) | set(after) if before.get(p) != after.get(p))
+    rel = lambda p: os.path.relpath(p, root) if p else None
+    drel = rel(expected_dest)
+    classes = []
+    for p in changed:
+        if drel is not None and p == drel:
+            classes.append("dest")
+        elif drel is not None and p.startswith(drel + os.sep):
+            classes.append("under-dest")
+        elif drel is not None and p == drel + ".tmp":
+            classes.append("dest.tmp")
+        else:
+            classes.append("other:" + p)
+    deleted_dirs = [p for p in before if before[p][0] == "dir" and after.get(p, ("",))[0] != "dir"]
+    tmp_rel = (drel + ".tmp") if drel else None
+    replaced_files = [p for p in before if before[p][0] == "file" and p in after and after[p] != before[p] and p != tmp_rel] + \
+                     [p for p in before if before[p][0] == "file" and p not in after and p != tmp_rel]
+    dest_ok = False
+    if outcome == "written" and expected_dest is not None:
+        if case["mode"] == "file":
+            dest_ok = after.get(drel, (None,))[0] == "file" and open(expected_dest, "rb").read() == payload
+        else:
+            dest_ok = after.get(drel, (None,))[0] == "dir" and after.get(os.path.join(drel, "d", "e.txt"), (None,))[0] == "file"
+    shutil.rmtree(sdir, ignore_errors=True)
+    return {"outcome": outcome, "exc": type(exc).__name__ if exc else "-", "changed": classes, "deletedDirs": deleted_dirs,
+            "replacedFiles": replaced_files, "destOK": bool(dest_ok), "name": name, "destRel": drel or "-",
+            "tmpLeft": bool(tmp_rel and tmp_rel in after and (case["mode"] == "file" or tmp_rel not in before)), "asked": len(answers),
+            "answer": answer, "fault": fault or "-", "internal": internal}
+
+
 MEMBER_NAMES = {
     "inside": lambda root: "plain.txt", "inside-nested": lambda root: "d1/d2/deep.txt",
     "dotdot-escape": lambda root: "../evil.txt", "absolute": lambda root: os.path.join(root, "elsewhere", "evil.txt"),
@@ -253,6 +355,28 @@ def run(prop, tier):
                         obs.update({"tid": tid, "case": case, "expect": decision, "kind": "dest", "origin": "family:lookalike"})
                         records.append(obs)
             cov["lookalike_basenames"] = len(LOOKALIKE)
+            # family: the same cases through the whole command (real `wormhole receive` against a real `wormhole send` whose
+            # offer carries the hostile name), the user answering yes or no, the transit stream surviving or not: what the
+            # command does *after* deciding - on its failure paths too - is part of "never clobbers"
+            ne2e = 0
+            for (_, case, decision) in cases:
+                if quick and (case["decor"] != "none" or case["pretmp"]):
+                    continue
+                if not quick and case["decor"] not in ("none", "parent", "absolute"):
+                    continue
+                variants = [("y", None)]
+                if not case["accept"]:
+                    variants.append(("n", None))
+                if case["base"] == "plain" and (not quick or case["pre"] == "none"):
+                    variants.append(("y", "cut"))
+                for answer, fault in variants:
+                    tid += 1
+                    ne2e += 1
+                    dec = decision if (case["accept"] or answer == "y") else {"result": "rejected", "dest": "-", "replaces": False}
+                    obs = execute_e2e(root, case, decision, PLAIN[0] if tid % 3 else rng.choice(PLAIN[1:]), answer, fault)
+                    obs.update({"tid": tid, "case": case, "expect": dec, "kind": "dest", "origin": "family:end-to-end"})
+                    records.append(obs)
+            cov["end_to_end_cases"] = ne2e
             # zip members: destination decided normally (plain name, nothing pre-existing), archive is hostile
             base_case = {"mode": "directory", "base": "plain", "decor": "none", "out": "unset", "accept": True, "pre": "none", "pretmp": False}
             for (_, mc, verdict) in members:
@@ -269,6 +393,7 @@ def run(prop, tier):
         path = wd.file("obs.ndjson")
         with open(path, "w") as f:
             for rec in records:
+                rec.setdefault("fault", "-")
                 f.write(json.dumps(rec) + "\n")
         with open(wd.file("MC_RDObs.cfg"), "w") as f:
             f.write("SPECIFICATION Spec\nCHECK_DEADLOCK FALSE\n")
